@@ -1,6 +1,6 @@
 From Coq Require Import List NArith ZArith.
 From Stam Require Import Model.Offset Model.Json Model.TempId Model.StamJson Spec.StamJsonSpec Proofs.StamJson Proofs.StamJsonSave
-     Proofs.StamJsonLoad Proofs.StamJsonAnn Proofs.StamJsonWhole Props.C05.
+     Proofs.StamJsonLoad Proofs.StamJsonAnn Proofs.StamJsonWhole Proofs.StamJsonSub Props.C05.
 Check (C05_value_codec : forall v, parse_val (json_of_val v) = Some v).
 Check (C05_selector_codec : forall k ls, target_ok k ls -> parse_target (json_of_target k ls) = Some (k, ls)).
 Check (C05_document_codec : forall b, bstore_ok b -> parse_bstore (json_of_bstore b) = Some b).
@@ -30,3 +30,4 @@ Print Assumptions C05_document_codec.
 Print Assumptions Known_C05_reserved_id_witness.
 Print Assumptions C05_no_substores_encode.
 Print Assumptions C05_no_substores_decode.
+Print Assumptions C05_documents_in_order.
